@@ -29,16 +29,30 @@ def sh(cmd, cwd=None, env=None, timeout=7200):
 
 
 def demo_commands(src):
-    """compile lines (gcc / g++ / cc / clang ...) of the header comment, and the binary they produce"""
+    """compile lines (gcc / g++ / cc / clang ..., possibly after a 'compile:' label, possibly continued with a backslash) of the
+    header comment, and the binary they produce"""
     head = open(src, errors="replace").read(6000)
-    cmds, binary = [], None
+    cmds, binary, cont = [], None, None
     for line in head.splitlines():
         t = line.strip().lstrip("/*").strip()
+        if cont is not None:
+            cont += " " + t.rstrip("\\").strip()
+            if not t.endswith("\\"):
+                cmds.append(cont)
+                cont = None
+            continue
+        t = re.sub(r"^(compile|build|compile and run|to compile)\s*:\s*", "", t, flags=re.I)
+        t = t.lstrip("$ ").strip()
         if re.match(r"^(gcc|g\+\+|cc|c\+\+|clang|clang\+\+)\s", t):
-            cmds.append(t)
-            m = re.search(r"-o\s+(\S+)", t)
-            if m:
-                binary = m.group(1)
+            if t.endswith("\\"):
+                cont = t.rstrip("\\").strip()
+            else:
+                cmds.append(t)
+    for c in cmds:
+        m = re.search(r"-o\s+(\S+)", c)
+        if m:
+            binary = m.group(1)
+    cmds = [c.split("&&")[0].strip() for c in cmds]
     return cmds, binary
 
 
@@ -83,7 +97,8 @@ def evaluate(prop, label, wt, patch, demo, checks, tiers, note):
     tag = prop + label
     outdir = os.path.join(VERIF, "seeded", tag)
     os.makedirs(outdir, exist_ok=True)
-    meta = {"id": tag, "property": prop, "patch": "patch.diff", "demonstration": "demo" + os.path.splitext(demo)[1]}
+    rc, head = sh(["git", "-C", VERIF, "rev-parse", "--short", "HEAD"])
+    meta = {"id": tag, "verif_commit": head.strip(), "property": prop, "patch": "patch.diff", "demonstration": "demo" + os.path.splitext(demo)[1]}
     sh("git checkout -- .", cwd=wt)
     rc, out = build(wt)
     if rc:
@@ -130,6 +145,13 @@ def evaluate(prop, label, wt, patch, demo, checks, tiers, note):
     for k in ("breaks", "needs", "confirmed_in_repo"):
         if k in old and k not in meta:
             meta[k] = old[k]
+    # keep the record of earlier evaluations (before a check was strengthened, or of other checks)
+    hist = old.get("earlier_evaluations", [])
+    if old.get("checks_run"):
+        hist.append({"verif_commit": old.get("verif_commit", "?"), "checks_run": [{k: r[k] for k in ("check", "tier", "exit", "violation_lines")}
+                                                                                 for r in old["checks_run"]]})
+    if hist:
+        meta["earlier_evaluations"] = hist
     json.dump(meta, open(mp, "w"), indent=1)
     print(tag, "confirmed=%s caught_by=%s" % (meta["confirmed"], meta["caught_by"]), flush=True)
 
